@@ -964,11 +964,11 @@ func toUint(v any) (uint64, bool) {
 func matchID(fs []filter, id uint64) (bool, error) {
 	for _, f := range fs {
 		if f.key != "id" {
-			return false, fmt.Errorf("simpg: unsupported filter key %q", f.key)
+			return false, common.NewErrInvalidQuery("simpg: unsupported filter key %q", f.key)
 		}
 		v, ok := toUint(f.val)
 		if !ok {
-			return false, fmt.Errorf("simpg: unsupported filter value %T", f.val)
+			return false, common.NewErrInvalidQuery("simpg: unsupported filter value %T", f.val)
 		}
 		switch f.op {
 		case "$match":
@@ -992,7 +992,7 @@ func matchID(fs []filter, id uint64) (bool, error) {
 				return false, nil
 			}
 		default:
-			return false, fmt.Errorf("simpg: unsupported operator %q", f.op)
+			return false, common.NewErrInvalidQuery("simpg: unsupported operator %q", f.op)
 		}
 	}
 	return true, nil
@@ -1012,13 +1012,13 @@ func paginateByID[T any](q common.PaginatedQuery[any], defaultOrder paginate.Ord
 	case *common.ColumnPaginatedQuery[any]:
 		cq = *v
 	default:
-		return nil, fmt.Errorf("simpg: unsupported pagination query %T", q)
+		return nil, common.NewErrInvalidQuery("simpg: unsupported pagination query %T", q)
 	}
 	if cq.Column != "" && cq.Column != "id" {
-		return nil, fmt.Errorf("simpg: unsupported pagination column %q", cq.Column)
+		return nil, common.NewErrInvalidQuery("simpg: unsupported pagination column %q", cq.Column)
 	}
 	if cq.Reverse {
-		return nil, fmt.Errorf("simpg: reverse pagination unsupported")
+		return nil, common.NewErrInvalidQuery("simpg: reverse pagination unsupported")
 	}
 	order := defaultOrder
 	if cq.Order != nil {
@@ -1116,7 +1116,7 @@ func (r logsResource) Paginate(ctx context.Context, q common.PaginatedQuery[any]
 			return r.s.logFromRow(sess.get(rowKey{"log", r.s.l.Name, idKey(id)}).(*LogRow))
 		})
 		if err != nil {
-			return r.s.w.harnessErr("%v", err)
+			return r.s.w.unmodelled("%v", err)
 		}
 		return nil
 	})
@@ -1161,7 +1161,7 @@ func (r txResource) Paginate(ctx context.Context, q common.PaginatedQuery[any]) 
 			return *copyTx(sess.get(rowKey{"tx", r.s.l.Name, idKey(id)}).(*ledger.Transaction)), nil
 		})
 		if err != nil {
-			return r.s.w.harnessErr("%v", err)
+			return r.s.w.unmodelled("%v", err)
 		}
 		return nil
 	})
@@ -1183,7 +1183,7 @@ func (r acctResource) GetOne(ctx context.Context, q common.ResourceQuery[any]) (
 		return nil, err
 	}
 	if len(fs) != 1 || fs[0].key != "address" || fs[0].op != "$match" {
-		return nil, r.s.w.harnessErr("simpg: unsupported account query %+v", fs)
+		return nil, r.s.w.unmodelled("simpg: unsupported account query %+v", fs)
 	}
 	address, _ := fs[0].val.(string)
 	var out *ledger.Account
@@ -1204,11 +1204,11 @@ func (r acctResource) GetOne(ctx context.Context, q common.ResourceQuery[any]) (
 }
 
 func (r acctResource) Count(ctx context.Context, q common.ResourceQuery[any]) (int, error) {
-	return 0, r.s.w.harnessErr("simpg: account count unsupported")
+	return 0, r.s.w.unmodelled("simpg: account count unsupported")
 }
 
 func (r acctResource) Paginate(ctx context.Context, q common.PaginatedQuery[any]) (*paginate.Cursor[ledger.Account], error) {
-	return nil, r.s.w.harnessErr("simpg: account listing unsupported")
+	return nil, r.s.w.unmodelled("simpg: account listing unsupported")
 }
 
 func (s *SimStore) Accounts() common.PaginatedResource[ledger.Account, any] { return acctResource{s} }
@@ -1216,10 +1216,10 @@ func (s *SimStore) Accounts() common.PaginatedResource[ledger.Account, any] { re
 type unsupportedAgg struct{ s *SimStore }
 
 func (r unsupportedAgg) GetOne(ctx context.Context, q common.ResourceQuery[ledger.GetAggregatedVolumesOptions]) (*ledger.AggregatedVolumes, error) {
-	return nil, r.s.w.harnessErr("simpg: aggregated balances unsupported")
+	return nil, r.s.w.unmodelled("simpg: aggregated balances unsupported")
 }
 func (r unsupportedAgg) Count(ctx context.Context, q common.ResourceQuery[ledger.GetAggregatedVolumesOptions]) (int, error) {
-	return 0, r.s.w.harnessErr("simpg: aggregated balances unsupported")
+	return 0, r.s.w.unmodelled("simpg: aggregated balances unsupported")
 }
 
 func (s *SimStore) AggregatedBalances() common.Resource[ledger.AggregatedVolumes, ledger.GetAggregatedVolumesOptions] {
@@ -1229,13 +1229,13 @@ func (s *SimStore) AggregatedBalances() common.Resource[ledger.AggregatedVolumes
 type unsupportedVol struct{ s *SimStore }
 
 func (r unsupportedVol) GetOne(ctx context.Context, q common.ResourceQuery[ledger.GetVolumesOptions]) (*ledger.VolumesWithBalanceByAssetByAccount, error) {
-	return nil, r.s.w.harnessErr("simpg: volumes unsupported")
+	return nil, r.s.w.unmodelled("simpg: volumes unsupported")
 }
 func (r unsupportedVol) Count(ctx context.Context, q common.ResourceQuery[ledger.GetVolumesOptions]) (int, error) {
-	return 0, r.s.w.harnessErr("simpg: volumes unsupported")
+	return 0, r.s.w.unmodelled("simpg: volumes unsupported")
 }
 func (r unsupportedVol) Paginate(ctx context.Context, q common.PaginatedQuery[ledger.GetVolumesOptions]) (*paginate.Cursor[ledger.VolumesWithBalanceByAssetByAccount], error) {
-	return nil, r.s.w.harnessErr("simpg: volumes unsupported")
+	return nil, r.s.w.unmodelled("simpg: volumes unsupported")
 }
 
 func (s *SimStore) Volumes() common.PaginatedResource[ledger.VolumesWithBalanceByAssetByAccount, ledger.GetVolumesOptions] {
